@@ -517,6 +517,100 @@ def r10_rendering_paths_are_python(chk, rule='C04.R10'):
 
 
 
+KIND_MARKERS = {
+    # IR class / node type -> the pysnmp SMI class that makes a loaded symbol be of that kind
+    ('class', 'moduleidentity'): 'ModuleIdentity', ('class', 'objectidentity'): 'ObjectIdentity',
+    ('class', 'textualconvention'): 'TextualConvention', ('class', 'objectgroup'): 'ObjectGroup',
+    ('class', 'notificationtype'): 'NotificationType', ('class', 'notificationgroup'): 'NotificationGroup',
+    ('class', 'agentcapabilities'): 'AgentCapabilities', ('class', 'modulecompliance'): 'ModuleCompliance',
+    ('nodetype', 'scalar'): 'MibScalar', ('nodetype', 'table'): 'MibTable', ('nodetype', 'row'): 'MibTableRow',
+    ('nodetype', 'column'): 'MibTableColumn',
+}
+
+
+def r16_kind_on_every_rendering_path(chk):
+    """the kind of a generated symbol is decided by the record's class / node type alone: every rendering path of the
+    region the template selects for a class (or node type) names that kind's pysnmp class, and no other kind's"""
+    import os
+    import warnings
+    from jinja2 import nodes as jn
+    from vt import tmplpaths as tp
+    chk.doc('C04.R16', 'pysnmp template: in the region selected by definition["class"] == K (loop filter or if-branch) or '
+                       'definition["nodetype"] == N, every rendering path (each branch of every inner if, 0-3 iterations '
+                       'of every inner for) mentions, as Python code, the pysnmp class of that kind (ModuleIdentity, '
+                       'TextualConvention, MibScalar / MibTable / MibTableRow / MibTableColumn, ObjectIdentity, '
+                       'ObjectGroup, NotificationType, NotificationGroup, AgentCapabilities, ModuleCompliance) and the '
+                       'class of no other kind: the kind a loaded symbol has cannot depend on anything but the record\'s '
+                       'class - e.g. not on whether its base type is defined in the same module')
+    rel = 'pysmi/codegen/templates/pysnmp/mib-definitions.j2'
+    env, tree, src = tp.parse(os.path.join(chk.repo, rel))
+    w = tp.Walker(env, tree, src, tp.marker_placeholder)
+    allm = set(KIND_MARKERS.values())
+
+    def selector(test):
+        """('class'|'nodetype', value) when the test is definition[<that>] == <const>"""
+        if isinstance(test, jn.Compare) and len(test.ops) == 1 and test.ops[0].op == 'eq' and \
+                isinstance(test.ops[0].expr, jn.Const) and isinstance(test.expr, jn.Getitem) and \
+                isinstance(test.expr.arg, jn.Const) and test.expr.arg.value in ('class', 'nodetype'):
+            return (test.expr.arg.value, test.ops[0].expr.value)
+        return None
+    regions = []
+    for f in tree.find_all(jn.For):
+        sel = selector(f.test) if f.test is not None else None
+        if sel in KIND_MARKERS:
+            # the export list and import lists are loops too: only loops that bind a name at statement level count
+            regions.append((sel, f.body, f.lineno))
+    for i_ in tree.find_all(jn.If):
+        for test, body in [(i_.test, i_.body)] + [(e.test, e.body) for e in i_.elif_]:
+            sel = selector(test)
+            if sel in KIND_MARKERS:
+                regions.append((sel, body, test.lineno))
+    n = 0
+    for sel, body, ln in sorted(regions, key=lambda r: r[2]):
+        want = KIND_MARKERS[sel]
+        bad = None
+        paths = 0
+        any_code = False
+        for sc, text in w.scenarios(body):
+            py = tp.fill_python_placeholders(text)
+            if not py.strip():
+                continue
+            try:
+                with warnings.catch_warnings():
+                    warnings.simplefilter('ignore')
+                    t = ast.parse(py)
+            except SyntaxError:
+                continue    # C04.R10 reports paths that do not parse
+            paths += 1
+            names = set(x.id for x in ast.walk(t) if isinstance(x, ast.Name)) & allm
+            binds = any(isinstance(x, (ast.Assign, ast.ClassDef)) for x in t.body)
+            if not binds:
+                continue    # a region that only lists names (export / import lists)
+            any_code = True
+            if names != {want} and bad is None:
+                bad = 'a rendering path names %s instead of exactly %s (choices %s)' % (
+                    sorted(names) or 'no kind class', want, dict((k[1], v) for k, v in sc.ifs.items()))
+        if not any_code:
+            continue
+        n += 1
+        chk.ob('C04.R16', 'region %s == %r' % sel, bad is None, '%s:%d' % (rel, ln),
+               bad or 'all %d rendering paths name %s' % (paths, want))
+    chk.floor('C04.R16', 10, 'regions selected by class / node type')
+
+
+
+def r17_names_only_hyphen_mapped(chk):
+    """shared with C03.R17: the import block of the template spells a symbol as the MIB does (hyphens mapped), so the
+    generator must not rename symbols in any other way - a name exported as pysmi_<keyword> is imported as <keyword>"""
+    from rules.C03 import r17_declared_names
+    common.reuse(chk, r17_declared_names, ('C03.R17',), 'C04.R17',
+                 'IntermediateCodeGen.transOpers maps "-" to "_" and nothing else (C03.R17): the pysnmp template writes '
+                 'the names a module imports from the MIB spelling with the same mapping, so any further renaming in the '
+                 'generator makes a module export a symbol under one name while its importers ask for another (or '
+                 'render a Python keyword as an assignment target)', floor=1)
+
+
+
 def r11_generators_start_clean(chk):
     """shared with C12.R2"""
     from rules.C12 import r2_generator_reset
@@ -586,4 +680,4 @@ def r15_augmention_record(chk):
 
 
 RULES = [r1_shared_ir, r2_class_exhaustiveness, r3_field_agreement, r4_default_formats, r5_import_export_spelling,
-         r6_sibling_tails, r7_one_line_literals, r8_star_tuples, r9_definition_order, r10_rendering_paths_are_python, r11_generators_start_clean, r12_default_formats_converted, r13_meta_members, r14_imports_reach_both_backends, r15_augmention_record]
+         r6_sibling_tails, r7_one_line_literals, r8_star_tuples, r9_definition_order, r10_rendering_paths_are_python, r11_generators_start_clean, r12_default_formats_converted, r13_meta_members, r14_imports_reach_both_backends, r15_augmention_record, r16_kind_on_every_rendering_path, r17_names_only_hyphen_mapped]
